@@ -755,13 +755,16 @@ func splitOnNewline(v ssa.Value) bool {
 // streamWriteLocked re-states C09's R-field-writer under another rule name for properties that need
 // "delivery on a session's stream holds that stream's own write lock" (C05): every write use of a writer
 // kept in a field of a mutex-bearing record holds the record's designated mutex exclusively.
-func streamWriteLocked(c *Ctx, rule string, serverOnly bool) int {
+type streamFieldUses struct {
+	owner *types.Named
+	uses  []wuse
+}
+
+// streamWrites: the write uses of writers kept in a field of a mutex-bearing library record, by field, each with the
+// locks held at it.
+func streamWrites(c *Ctx, serverOnly bool) map[string]*streamFieldUses {
 	ls := c.Locks()
-	type fu struct {
-		owner *types.Named
-		uses  []wuse
-	}
-	by := map[string]*fu{}
+	by := map[string]*streamFieldUses{}
 	for _, fn := range c.P.LibFns {
 		if c.InitOnly()[fn] || (serverOnly && clientSide(c, fn)) {
 			continue
@@ -787,7 +790,7 @@ func streamWriteLocked(c *Ctx, rule string, serverOnly bool) int {
 				for _, r := range *dv.Referrers() {
 					if what, ok := writeUse(r, dv); ok {
 						if by[key] == nil {
-							by[key] = &fu{owner: owner}
+							by[key] = &streamFieldUses{owner: owner}
 						}
 						by[key].uses = append(by[key].uses, wuse{fn, r, what, ls.At(r)})
 					}
@@ -795,6 +798,38 @@ func streamWriteLocked(c *Ctx, rule string, serverOnly bool) int {
 			}
 		})
 	}
+	return by
+}
+
+// streamWriteNotUnder: no write on a session's stream happens while lock (a table lock shared by all sessions) is held,
+// shared or exclusive: a write blocks for as long as the peer does not read, and everything that needs the table —
+// registering the session's next stream, every other session's sends behind a waiting writer — would block with it.
+func streamWriteNotUnder(c *Ctx, rule, lock, what string) int {
+	by := streamWrites(c, true)
+	var keys []string
+	for k := range by {
+		keys = append(keys, k)
+	}
+	sort.Strings(keys)
+	n := 0
+	for _, k := range keys {
+		cnt := map[string]int{}
+		for _, u := range by[k].uses {
+			n++
+			construct := k + " " + u.what + " in " + fname(u.fn)
+			cnt[construct]++
+			if cnt[construct] > 1 {
+				construct = sprintf("%s#%d", construct, cnt[construct])
+			}
+			c.R.Check(!u.locks.Has(lock), rule, construct, c.Pos(u.in.Pos()), "the "+what+" lock is not held across the stream write",
+				sprintf("%s writes to the session stream %s via %s while holding %s, the lock of the %s: a peer that stops reading keeps that lock held, so the session's next stream cannot be registered and, behind the waiting writer, no session's sends proceed", fname(u.fn), k, u.what, lock, what))
+		}
+	}
+	return n
+}
+
+func streamWriteLocked(c *Ctx, rule string, serverOnly bool) int {
+	by := streamWrites(c, serverOnly)
 	var keys []string
 	for k := range by {
 		keys = append(keys, k)
